@@ -126,10 +126,10 @@ type IndexVectorChange struct {
 
 func (v *IndexVamana) InsertUpdateDelete(ctx context.Context, points <-chan IndexVectorChange) <-chan error {
 	errC := make(chan error, 1)
-	go func() {
+	utils.Go(ctx, func() {
 		errC <- v.insertUpdateDelete(ctx, points)
 		close(errC)
-	}()
+	})
 	return errC
 }
 
